@@ -5689,7 +5689,7 @@ evhttp_uri_set_unixsocket(struct evhttp_uri *uri, const char *unixsocket)
 int
 evhttp_uri_set_port(struct evhttp_uri *uri, int port)
 {
-	if (port < -1)
+	if (port < -1 || port > 65535)
 		return -1;
 	uri->port = port;
 	return 0;
